@@ -1049,8 +1049,9 @@ func c04R4(c *Ctx, p *Prog) {
 	c.Floor(R, "constructions of UnitMetadataKey in package benchfmt", n, 2)
 }
 
-func c04R5(c *Ctx, p *Prog) {
-	const R = "C04/R5"
+func c04R5(c *Ctx, p *Prog) { c04UnitTerm(c, p, "C04/R5") }
+
+func c04UnitTerm(c *Ctx, p *Prog, R string) {
 	// The per-measurement decision of the .unit term, as a truth table: with Mu = the term matches the base unit,
 	// Mo = it matches the unit as written and G = a written unit is present (OrigUnit != ""), the measurement's bit
 	// is set exactly when Mu || (G && Mo). Read from the path conditions of one loop iteration (helpers evaluated in
